@@ -101,12 +101,15 @@ def tryBase64 (data : Bytes) : Option Bytes :=
         let escaped := escapeBytes decoded
         if 20 * escaped.length > 21 * decoded.length then none else some escaped
 
-/-- `_quote_format` (repaired, D6): a leading `-` would be taken by `printf` as an option. -/
-def quoteFormat (escaped : Bytes) : Bytes :=
-  let e := match escaped with
-    | c :: rest => if c = 45 then asc "\\055" ++ rest else escaped
-    | [] => escaped
-  39 :: (e ++ [39])
+/-- the escaping step of `_quote_format` (repaired, D6): a leading `-` would be taken by `printf`
+    as an option, so it is written `\055`. -/
+def dashFix (escaped : Bytes) : Bytes :=
+  match escaped with
+  | c :: rest => if c = 45 then asc "\\055" ++ rest else escaped
+  | [] => escaped
+
+/-- `_quote_format` -/
+def quoteFormat (escaped : Bytes) : Bytes := 39 :: (dashFix escaped ++ [39])
 
 /-- the parameter text for one maybe-base64 run -/
 def param (escaped : Bytes) : Bytes :=
